@@ -196,6 +196,17 @@ func (d *decCtx) body(s *gen.SpecM, body *ast.Body, labels []string) cty.Value {
 	return d.spec(s, present, byType, labels)
 }
 
+// inBlock evaluates f with the block's extra bindings (dynamic-block iterators) in scope.
+func (d *decCtx) inBlock(b ast.Block, f func() cty.Value) cty.Value {
+	if b.Bind == nil {
+		return f()
+	}
+	saved := d.env
+	d.env = d.env.child(b.Bind)
+	defer func() { d.env = saved }()
+	return f()
+}
+
 func labelTexts(b ast.Block) []string {
 	out := make([]string, len(b.Labels))
 	for i, l := range b.Labels {
@@ -261,11 +272,12 @@ func (d *decCtx) spec(s *gen.SpecM, attrs map[string]ast.Node, blocks map[string
 		if len(bls) > 1 {
 			d.err = true
 		}
-		return d.body(s.Nested, bls[0].Body, labelTexts(bls[0]))
+		return d.inBlock(bls[0], func() cty.Value { return d.body(s.Nested, bls[0].Body, labelTexts(bls[0])) })
 	case gen.SBlockList, gen.SBlockTuple, gen.SBlockSet:
 		var vals []cty.Value
 		for _, b := range blocks[s.Name] {
-			vals = append(vals, d.body(s.Nested, b.Body, labelTexts(b)))
+			b := b
+			vals = append(vals, d.inBlock(b, func() cty.Value { return d.body(s.Nested, b.Body, labelTexts(b)) }))
 		}
 		if len(vals) < s.MinItems || (s.MaxItems > 0 && len(vals) > s.MaxItems) {
 			d.err = true
@@ -327,9 +339,14 @@ func (d *decCtx) spec(s *gen.SpecM, attrs map[string]ast.Node, blocks map[string
 			d.err = true
 		}
 		vals := map[string]cty.Value{}
+		saved := d.env
+		if bls[0].Bind != nil {
+			d.env = d.env.child(bls[0].Bind)
+		}
+		defer func() { d.env = saved }()
 		for _, it := range bls[0].Body.Items {
 			switch x := it.(type) {
-			case ast.Block:
+			case ast.Block, ast.Dyn:
 				d.err = true // blocks are not allowed in a free-form attributes block
 			case ast.Attr:
 				r := Eval(x.Expr, d.env)
@@ -398,7 +415,8 @@ func (d *decCtx) keyed(s *gen.SpecM, bls []ast.Block) cty.Value {
 	root := &keyedNode{children: map[string]*keyedNode{}}
 	for _, b := range bls {
 		labels := labelTexts(b)
-		v := d.body(s.Nested, b.Body, labels[depth:])
+		b := b
+		v := d.inBlock(b, func() cty.Value { return d.body(s.Nested, b.Body, labels[depth:]) })
 		cur := root
 		for i := 0; i < depth; i++ {
 			k := labels[i]
